@@ -185,6 +185,66 @@ def run_cross(case, agg):
     agg.rej(key, "refused:ValueError", nontrivial=True, sample={"space": sname, "foreign": foreign})
 
 
+OPEN_SPACES = ("envelope", "envelope-simplified", "text-keys")     # text keys / payload names are legal beside the members
+
+
+def run_cross_second(case, agg):
+    """the foreign name as a SECOND member beside a valid one (encode direction), and its code beside a valid member's
+    code (decode direction): a closed key space refuses it wherever it stands"""
+    sname, foreign, fspace = case["space"], case["name"], case["from"]
+    sp = spaces()[sname]
+    fsp = spaces()[fspace]
+    key = h8("cross2", sname, foreign)
+    vname, vval = next(iter(sp["values"].items()))
+    fval = fsp["values"][foreign]
+    k = sp["kind"]
+    # encode
+    for value in (vval, fval):
+        obj = {vname: vval, foreign: value} if k in ("map", "pair") else [{vname: vval, foreign: value}] if k == "tuple" else [vname, foreign]
+        try:
+            data = sp["cls"].from_obj(obj).to_cbor()
+        except Exception:
+            continue
+        agg.viol(f"C08:foreign-name-accepted-beside-valid/{sname}", f"{foreign} (of {fspace}) as a second member beside {vname} in {sname} was accepted; encoded as {data.hex()}")
+        return
+    # decode: the valid member's real encoding, then the foreign code
+    fcode = registry.SPACES[fspace][foreign]
+    if k in ("map", "tuple") and sname not in OPEN_SPACES and fcode not in registry.SPACES[sname].values():
+        try:
+            vcode, vraw = encode_entry(sp, vname, vval)
+        except Exception as e:
+            raise RuntimeError(f"harness: cannot encode {sname}/{vname}: {e}")
+        for fraw in (enc(0), vraw):
+            data = enc({vcode.value: Raw(vraw), fcode: Raw(fraw)}) if k == "map" else enc([vcode.value, Raw(vraw), fcode, Raw(fraw)])
+            try:
+                shown = sp["cls"].from_cbor(data).to_obj()
+            except Exception:
+                continue
+            agg.viol(f"C08:foreign-code-accepted-beside-valid/{sname}", f"code {fcode} ({foreign} of {fspace}, not registered in {sname}) beside {vname} was accepted "
+                     f"by parse and shown as {str(shown)[:120]}")
+            return
+    agg.rej(key, "refused", nontrivial=True, sample={"space": sname, "foreign": foreign, "beside": vname} if foreign == "suit-parameter-uri" and sname == "commands" else None)
+
+
+def cross_second_cases():
+    out = []
+    for c in cross_cases():
+        s, f, n = c["space"], c["from"], c["name"]
+        if spaces_kind(s) not in ("map", "tuple", "pair", "bits"):
+            continue
+        out.append(c)
+    return out
+
+
+_KINDS = {}
+
+
+def spaces_kind(s):
+    if not _KINDS:
+        _KINDS.update({k: v["kind"] for k, v in spaces().items()})
+    return _KINDS[s]
+
+
 def cross_cases():
     out = []
     for s, tbl in registry.SPACES.items():
@@ -362,6 +422,8 @@ def plan(tier):
         CaseStage("forward-and-back", forward_cases, run_forward, rule="every (space, name): name->code and code->name"),
         CaseStage("distinct-codes", [{"space": s} for s in registry.SPACES], run_distinct, rule="pairwise distinct codes per space"),
         CaseStage("cross-placement", cross_cases, run_cross, rule="every name in every other closed key space"),
+        CaseStage("cross-placement-beside-valid", cross_second_cases, run_cross_second,
+                  rule="every foreign name as a second member beside a valid one (encode), every foreign code beside a valid member's code (decode)"),
         CaseStage("unknown-codes", lambda: unknown_cases(tier), run_unknown, chunk=1, rule="every integer -70000..300 outside the table, every space"),
         CaseStage("tags", tag_cases, run_tags, rule="tags 107/18/96 and neighbouring tag numbers"),
         CaseStage("pseudo-members", [{"which": w} for w in registry.ENVELOPE_PSEUDO], run_pseudo, rule="integrated payloads/dependencies flattening"),
